@@ -79,6 +79,7 @@ func LoadSynth() ([]*Pkg, []string) {
 			out = append(out, p)
 		}
 	}
+	out = append(out, GenCommentInputs()...)
 	return out, skipped
 }
 
@@ -823,6 +824,11 @@ func Systematic(bases []*Pkg, tier string, seed int64, stats map[string]int) []*
 				add(base, f, "anon-params"+strconv.Itoa(v), sysAnonParams(base, f, v), nil)
 			}
 			add(base, f, "unicode-strings", sysUnicodeStrings(f), nil)
+			if base.Stream == "S1" {
+				for v := 0; v < 2; v++ {
+					add(base, f, "comment-prose"+strconv.Itoa(v), sysCommentProse(f, v), nil)
+				}
+			}
 			{
 				eds, ins := sysPrependStmt(f)
 				add(base, f, "prepend-stmt", eds, ins)
